@@ -26,11 +26,19 @@ structure MSt where
   bootLost : List Nat := []
   bootGone : List Nat := []
   fails : List String := []
+  /-- failures of the rules "after close nothing connects, creates a broker client, writes a bootstrap request or
+      hands a request to a broker client" (part of `ok`; kept apart because these rules are PROVED of every model
+      trace: `C20_model_traces_satisfy_monitor_partial`) -/
+  connFails : List String := []
   /-- failures of the one rule the code is KNOWN to violate (kept apart: `ok` does not include them) -/
   bootFails : List String := []
+  /-- the harness reported, at the end of the trace, that no connection is open, being attempted or awaiting
+      its closed notification -/
+  quiet : Bool := false
   deriving Repr
 
 def fail (s : MSt) (why : String) : MSt := { s with fails := s.fails ++ [why] }
+def failC (s : MSt) (why : String) : MSt := { s with connFails := s.connFails ++ [why] }
 
 /-- a result that reports failure (or the documented cancellation value `None` of a metadata load) -/
 def failing : OpRes → Bool
@@ -70,12 +78,12 @@ def stepItem (s : MSt) : TItem → MSt
         then { s1 with bootFails := s1.bootFails ++ ["a metadata load interrupted by close completed with None instead of failing"] } else s1
       if s.closed && !failing r then fail s2 s!"operation {op} completed successfully after close" else s2
     | .raised op _ => { s with live := s.live.filter (fun x => !(x == op)) }
-    | .mk k _ _ _ => if s.closed then fail s s!"request {k} issued after close" else s
+    | .mk k _ _ _ => if s.closed then failC s s!"request {k} issued after close" else s
     | .bcNew b _ _ _ =>
       let s1 := { s with newBcs := s.newBcs ++ [b] }
-      if s.closed then fail s1 s!"broker client {b} created after close" else s1
-    | .bootConnect j _ _ => if s.closed then fail s s!"bootstrap connect {j} after close" else s
-    | .bootWrite j => if s.closed then fail s s!"bootstrap write {j} after close" else s
+      if s.closed then failC s1 s!"broker client {b} created after close" else s1
+    | .bootConnect j _ _ => if s.closed then failC s s!"bootstrap connect {j} after close" else s
+    | .bootWrite j => if s.closed then failC s s!"bootstrap write {j} after close" else s
     | .bcClose b => { s with closedBcs := s.closedBcs ++ [b] }
     | .bootLose j => { s with bootLost := s.bootLost ++ [j] }
     | .down b => { s with downBcs := s.downBcs ++ [b] }
@@ -95,6 +103,7 @@ def stepItem (s : MSt) : TItem → MSt
     if s.closed && !c.partMeta.isEmpty then fail s "partition metadata survives close" else s
   | .net what => if s.closed then fail s s!"network activity after close: {what}" else s
   | .bootGone j => { s with bootGone := s.bootGone ++ [j] }
+  | .netQuiet => { s with quiet := true }
   | _ => s
 
 def run (tr : List TItem) : MSt :=
@@ -103,12 +112,15 @@ def run (tr : List TItem) : MSt :=
   if s.closed && s.closedBcs.all (fun b => s.downBcs.contains b) &&
       !(match s.closeOp with | some o => s.firedOps.contains o | none => true) then
     fail s "every broker client has gone but the close Deferred did not fire exactly once"
+  -- independent of the broker clients' own reports: nothing is left on the network, so every connection HAS gone
+  else if s.closed && s.quiet && !(match s.closeOp with | some o => s.firedOps.contains o | none => true) then
+    fail s "no connection is left (none open, attempted or awaiting its notification) but the close Deferred has not fired"
   else s
 
-def ok (tr : List TItem) : Bool := (run tr).fails.isEmpty
+def ok (tr : List TItem) : Bool := (run tr).fails.isEmpty && (run tr).connFails.isEmpty
 
 /-- `ok` plus the rule that the close Deferred also waits for the bootstrap connections (which the
     code is known not to do: known finding, open statement `C20_close_awaits_bootstrap_connections`) -/
-def okFull (tr : List TItem) : Bool := (run tr).fails.isEmpty && (run tr).bootFails.isEmpty
+def okFull (tr : List TItem) : Bool := ok tr && (run tr).bootFails.isEmpty
 
 end Afkak.Monitor.C20
